@@ -513,9 +513,11 @@ func regGroupTypes[G algebra.PrimeGroupElement[G, S], S algebra.PrimeFieldElemen
 		gen = append(gen, "run/gennaro/"+g.name+"/"+compShort(c))
 	}
 	deal := "deal/" + g.name
-	reg[*gennaro.Round1Broadcast[G, S]](famMessages, "gennaro/", gen...)
-	reg[*gennaro.Round1Unicast[G, S]](famMessages, "gennaro/", gen...)
-	reg[*gennaro.Round2Broadcast[G, S]](famMessages, "gennaro/", gen...)
+	if len(gen) > 0 {
+		reg[*gennaro.Round1Broadcast[G, S]](famMessages, "gennaro/", gen...)
+		reg[*gennaro.Round1Unicast[G, S]](famMessages, "gennaro/", gen...)
+		reg[*gennaro.Round2Broadcast[G, S]](famMessages, "gennaro/", gen...)
+	}
 	for _, c := range comps {
 		src := "run/gennaro/" + g.name + "/" + compShort(c)
 		switch c {
@@ -570,6 +572,9 @@ func (e *ecdsaEnv[P, B, S]) suite() *ecdsa.Suite[P, B, S] {
 }
 
 const l17KeyBits = 1024
+
+// Lindell17 signing needs a straight-line extractable compiler (it refuses Fiat-Shamir).
+var l17Compilers = []compiler.Name{fischlin.Name, randfischlin.Name}
 
 func (e *ecdsaEnv[P, B, S]) l17Shards() (map[sharing.ID]*lindell17.Shard[P, B, S], error) {
 	return e.l17.get(func() (map[sharing.ID]*lindell17.Shard[P, B, S], error) {
@@ -683,7 +688,7 @@ func defECDSASources[P curves.Point[P, B, S], B algebra.PrimeFieldElement[B], S 
 		}
 		return roots, nil
 	})
-	for _, comp := range []compiler.Name{fiatshamir.Name, fischlin.Name, randfischlin.Name} {
+	for _, comp := range l17Compilers {
 		comp := comp
 		defSource("run/lindell17-sign/"+e.name+"/"+compShort(comp), func() ([]root, error) {
 			shards, err := e.l17Shards()
@@ -742,7 +747,7 @@ func defECDSASources[P curves.Point[P, B, S], B algebra.PrimeFieldElement[B], S 
 		}
 		cx := ctxs(ids3, "l17dkg/"+e.name)
 		r, err := runHonest("lindell17 dkg", ids3, func(id sharing.ID) (network.Runner[*lindell17.Shard[P, B, S]], error) {
-			return l17dkg.NewRunner(cx[id], bs[id], 512, e.curve, prng(fmt.Sprint("l17dkg/", e.name, id)), fiatshamir.Name)
+			return l17dkg.NewRunner(cx[id], bs[id], l17KeyBits, e.curve, prng(fmt.Sprint("l17dkg/", e.name, id)), fiatshamir.Name)
 		})
 		if err != nil {
 			return nil, err
